@@ -174,7 +174,106 @@ def repair(n, raw):
 # Hypothesis strategies
 
 _K = [1, 2, 2, 0, 1, 2]
-MODES = ["uniform", "local", "motif", "structured", "dense"]
+MODES = ["uniform", "local", "motif", "structured", "dense", "compose", "compose"]
+
+_LIB = None
+
+
+def _library():
+    """building blocks of the compose mode: ALL closed CFGs with 2, 3 and 4 blocks (the exhaustively enumerated small
+    scope) - so every small shape occurs as a part of a larger graph, nested in and followed by every other.  Graphs
+    with a self loop are listed once, all others three times (self loops would otherwise dominate)."""
+    global _LIB
+    if _LIB is None:
+        _LIB = []
+        for n in (2, 3, 4):
+            for g in enum_labelled(n):
+                _LIB.extend([g] if any(i in ss for i, ss in g.items()) else [g, g, g])
+    return _LIB
+
+
+def substitute(g, v, h, how):
+    """replace block v of g by the closed CFG h: arcs into v enter h at its entry; the exits of h take over v's
+    successors (how[j] selects, for the j-th exit, all of them or one of them).  Returns raw successor lists with the
+    entry numbered 0."""
+    off = max(g) + 1
+    hid = {i: off + i for i in h}
+    ent = hid[0]
+    vs = [ent if t == v else t for t in g[v]]
+    raw = {}
+    for u, ss in g.items():
+        if u != v:
+            raw[u] = [ent if t == v else t for t in ss]
+    exits = [i for i in sorted(h) if not h[i]]
+    for i, ss in h.items():
+        raw[hid[i]] = [hid[t] for t in ss]
+    for j, e in enumerate(exits):
+        if vs:
+            k = how[j % len(how)]
+            raw[hid[e]] = list(vs) if k == 0 or len(vs) == 1 else [vs[(j + k) % len(vs)]]
+    first = ent if v == 0 else 0
+    order = [first] + sorted(k for k in raw if k != first)
+    ren = {o: i for i, o in enumerate(order)}
+    return {ren[u]: [ren[t] for t in raw[u]] for u in order}
+
+
+@st.composite
+def loopy_cfgs(draw):
+    """one loop with several exits to DISTINCT blocks (2-4), optionally a second entry, several latches; the exit
+    blocks return, meet in a join or fall into one another (a loop exit landing in a sibling)."""
+    k = draw(st.integers(2, 5))
+    m = draw(st.integers(2, min(4, k + 1)))
+    raw = {0: [1]}
+    body = list(range(1, k + 1))
+    for i in body:
+        raw[i] = [i + 1] if i < k else [1]
+    exits = [k + 1 + j for j in range(m)]
+    join = k + 1 + m
+    hosts = draw(st.lists(st.sampled_from(body), min_size=m, max_size=m, unique=True)) if m <= k else body + [body[-1]]
+    for j, hst in enumerate(hosts[:m]):
+        if len(raw[hst]) < 2:
+            if draw(st.booleans()):
+                raw[hst].append(exits[j])
+            else:
+                raw[hst].insert(0, exits[j])
+    for j, x in enumerate(exits):
+        r = draw(st.integers(0, 3))
+        raw[x] = [] if r == 0 else [join] if r in (1, 2) else [exits[(j + 1) % m]]
+    raw[join] = []
+    if draw(st.integers(0, 2)) == 0 and k >= 2:
+        raw[0] = [1, draw(st.sampled_from(body[1:]))]  # second entry: two headers
+    if draw(st.integers(0, 2)) == 0:
+        b = draw(st.sampled_from(body))
+        if len(raw[b]) < 2 and 1 not in raw[b]:
+            raw[b].append(1)  # another latch
+    return repair(join + 1, raw)
+
+
+@st.composite
+def composed_cfgs(draw, max_n=14):
+    lib = _library()
+    g = lib[draw(st.integers(0, len(lib) - 1))] if draw(st.integers(0, 3)) else draw(loopy_cfgs())
+    for _ in range(draw(st.integers(1, 4))):
+        if len(g) >= max_n:
+            break
+        h = lib[draw(st.integers(0, len(lib) - 1))] if draw(st.integers(0, 2)) else draw(loopy_cfgs())
+        v = draw(st.integers(0, len(g) - 1))
+        v = sorted(g)[v]
+        how = [draw(st.integers(0, 2)) for _ in range(3)]
+        raw = substitute(g, v, h, how)
+        g = repair(len(raw), raw)
+    # cross edges between the parts (exits of an inner structure into a sibling or an outer one, second entries)
+    raw = {i: list(ss) for i, ss in g.items()}
+    n = len(raw)
+    for _ in range(draw(st.integers(0, 3))):
+        u = draw(st.integers(0, n - 1))
+        t = draw(st.integers(1, n - 1)) if n > 1 else 0
+        if len(raw[u]) < 2 and t not in raw[u] and t != 0:
+            if draw(st.booleans()):
+                raw[u].append(t)
+            else:
+                raw[u].insert(0, t)
+    return repair(n, raw)
 
 
 @st.composite
@@ -182,6 +281,8 @@ def closed_cfgs(draw, max_n=14, min_n=3, modes=MODES):
     mode = draw(st.sampled_from(modes))
     if mode == "structured":
         return draw(structured_cfgs(max_n))
+    if mode == "compose":
+        return draw(composed_cfgs(max_n))
     n = draw(st.integers(min_n, max_n))
     raw = {i: [] for i in range(n)}
     # spanning skeleton: every block gets a predecessor among earlier blocks
@@ -469,9 +570,32 @@ def classify(succ):
         inner = {i: tuple(t for t in succ[i] if t in c and t not in headers) for i in c if i not in headers}
         if any(len(k) > 1 or next(iter(k)) in inner[next(iter(k))] for k in sccs(inner)):
             tags.append("nested_loop")
+        if len(headers) >= 3:
+            tags.append("loop_entries>=3")
+        if len(exits) >= 3:
+            tags.append("loop_exits>=3")
+        if len(latches) >= 3:
+            tags.append("loop_latches>=3")
     if not reducible(succ):
         tags.append("irreducible")
+    d = _loop_depth(succ)
+    if d >= 3:
+        tags.append("loop_depth>=3")
     return sorted(set(tags))
+
+
+def _loop_depth(succ, limit=6):
+    """nesting depth of cycles: 1 + depth of what is left of a component when its entry targets are removed"""
+    best = 0
+    for c in sccs(succ):
+        if len(c) == 1 and next(iter(c)) not in succ[next(iter(c))]:
+            continue
+        if limit <= 0:
+            return 1
+        headers = {t for i, ss in succ.items() if i not in c for t in ss if t in c} or {min(c)}
+        inner = {i: tuple(t for t in succ[i] if t in c and t not in headers) for i in c if i not in headers}
+        best = max(best, 1 + (_loop_depth(inner, limit - 1) if inner else 0))
+    return best
 
 
 def nontrivial_shape(succ) -> bool:
